@@ -104,8 +104,9 @@ CLAIMS = {
              "on events recorded from CheckHeader.run, the regex model vs the source's compiled pattern, the template vs the "
              "repository's sample header; search: field sets x mutations x bodies on the implementation.",
         ref="DESIGN.md 4.13", technique="Rocq proof (verified regex matcher, counting lemmas, state machine translated from source) + event/regex correspondence + mutation search",
-        note=NOTE + "Tested, not proved: that lexer + IsComment cut template lines into one comment event per line; that Python's "
-             "backtracking re.search agrees with the denotation."),
+        note=NOTE + "Proved for fields forming no di/trigraph and holding no backslash, ?, tab: the lexer cuts the header followed by ANY "
+             "text into one MULT_COMMENT token per template line (C13_header_lexed). Tested, not proved: that IsComment matches "
+             "MULT_COMMENT NEWLINE as one statement; that Python's backtracking re.search agrees with the denotation."),
     "C17": dict(
         text="Theorems: for every replacement accepted by replace_ok (same length, newline and tab positions kept, no backslash, own "
              "quote, ? % : and no / in block comments) every observation form that the rules apply to a token's spelling is "
@@ -161,14 +162,15 @@ CLAIMS = {
         text="Theorems: for every rule oracle that does not read the debug level, every token count and every pair of debug levels, "
              "two runs that both reach a verdict have equal diagnostics and verdict, and a verdict at debug 0 is the verdict at "
              "every level; -R sets skip_define iff its last word is exactly CheckDefine, and a run with it equals the run without "
-             "it minus exactly the diagnostics of three codes; both formats show the same views for all file lists, the humanized "
+             "it minus exactly the diagnostics coded PREPROC_CONSTANT (the #define-value code; the macro-name and function-like-"
+             "macro checks are kept, for every #define line); both formats show the same views for all file lists, the humanized "
              "text is a function of the views and the colour switch, stripping colour sequences gives the uncoloured text, -o is "
-             "never read; inline content (any content, CR/CRLF included) yields the same File and Context as a file of that "
-             "name holding it (the two replace passes of main() compute universal-newline translation).  Refuted "
-             "(known finding): -R CheckDefine silences the macro-name and function-like-macro codes too.  The hypotheses on the oracle are justified by reader tables (every syntactic read of debug / "
-             "skip_define / the presentation options) regenerated from the source on every run and proved equal to reviewed lists "
-             "(fail closed); they are not proved of the rule bodies.  Search: conforming and violating files x option sets through "
-             "the real main(), both formats parsed back and compared with the baseline run.",
+             "never read; inline content (any content, CR/CRLF included) yields the same File and Context as a file of that name "
+             "holding it.  The hypotheses on the oracle are justified by reader tables (every syntactic read of debug / "
+             "skip_define / the presentation options, the guard structure of the define check, the inline branch of main()) "
+             "regenerated from the source on every run and proved equal to reviewed lists (fail closed); they are not proved of "
+             "the rule bodies.  Search: conforming and violating files x option sets through the real main(), both formats parsed "
+             "back and compared with the baseline run.",
         ref="DESIGN.md 4.16", technique="Rocq proof (generic engine + option model, reader tables from source) + option-matrix differential runs of main()",
         note=NOTE + "Modelled, not verified: argparse, open()'s decoding. Tested only: that printed text parses back to the views."),
     "C01": dict(
@@ -206,8 +208,9 @@ CLAIMS = {
              "and every field value the trace alone yields exactly one INVALID_HEADER and none behind the template header (the "
              "CheckHeader machine translated from source); the table of all history look-backs of the rules, regenerated on every "
              "run, is the reviewed one; the lexer model is line/offset parametric, so from the state reached after a prefix of "
-             "complete lines lexing continues exactly as the lexing of the text, shifted (composition with the run on the prefix "
-             "given locality of the prefix's steps).  SEARCHED on every run: header in front (diagnostics = those of T minus INVALID_HEADER, "
+             "complete lines lexing continues exactly as the lexing of the text, shifted; the composition with the run on the "
+             "prefix is unconditional for prefixes of one-line block comments and for the 42 header (their steps never look past "
+             "their end), conditional on locality for other prefixes.  SEARCHED on every run: header in front (diagnostics = those of T minus INVALID_HEADER, "
              "shifted by 11 lines), comment line at every top-level insertion point (earlier diagnostics untouched, later ones "
              "shifted by one), function appended (identical diagnostics), token streams shift rigidly - over the conforming "
              "family and violating token edits, .c and .h.  Four exceptions are recorded as known findings.",
